@@ -74,8 +74,11 @@ def H(algo, data):
     return (hashlib.md5 if algo == b"md5" else hashlib.sha1)(data).hexdigest().encode("ascii")
 
 
-def client_response(algo, user, realm, pw, method, uri, nonce, nc=None, cnonce=None, qop=None):
+def client_response(algo, user, realm, pw, method, uri, nonce, nc=None, cnonce=None, qop=None, sess=False):
     ha1 = H(algo, user + b":" + realm + b":" + pw)
+    if sess:
+        # RFC 2617 3.2.2.2 (as clarified by its erratum: the hex form of the inner hash), session variant
+        ha1 = H(algo, ha1 + b":" + nonce + b":" + cnonce)
     ha2 = H(algo, method + b":" + uri)
     if qop is not None:
         return H(algo, b":".join([ha1, nonce, nc, cnonce, qop, ha2]))
@@ -221,7 +224,9 @@ def _run(sim):
         verdicts = {}
         if creds is not None:
             sim.check("decode-returns-credentials", isinstance(creds, credentials.DigestedCredentials), "type", "decode returned %r" % (creds,))
-            for pw in sorted({used_pw, right_pw, WRONG}):
+            # the same credentials object is asked about several candidate passwords, in tape-chosen order
+            # (a checker may hold several secrets for a user; verdicts must not depend on earlier questions)
+            for pw in sim.draw_perm(sorted({used_pw, right_pw, WRONG})):
                 try:
                     verdicts[pw] = bool(creds.checkPassword(pw))
                 except Exception as e:
@@ -248,9 +253,11 @@ def _run(sim):
                 sim.check("accepted-is-justified", ok, "context",
                           "a mutated response was accepted although its nonce/opaque are not an issued, unexpired challenge for %s; header=%r" % (addr, header))
                 sim.check("accepted-is-justified", len(accepted) == 1, "two-passwords", "accepted for passwords %r; header=%r" % (accepted, header))
+                sim.check("accepted-is-justified", accepted == [used_pw], "other-password", "accepted for %r, the client used %r; header=%r" % (accepted, used_pw, header))
                 a = f.get("algorithm", b"md5").lower()
-                if f.get("qop") == b"auth" and f.get("nc") and f.get("cnonce") and f.get("uri") is not None and a in (b"md5", b"sha"):
-                    want = client_response(a, creds.username, realm, accepted[0], method, f["uri"], nonce, f["nc"], f["cnonce"], b"auth")
+                if f.get("qop") == b"auth" and f.get("nc") and f.get("cnonce") and f.get("uri") is not None and a in (b"md5", b"sha", b"md5-sess"):
+                    want = client_response(b"md5" if a == b"md5-sess" else a, creds.username, realm, accepted[0], method, f["uri"], nonce, f["nc"], f["cnonce"], b"auth",
+                                           sess=(a == b"md5-sess"))
                     sim.check("accepted-is-justified", f.get("response") == want, "response-hash",
                               "accepted although response=%r is not the RFC 2617 digest %r; header=%r" % (f.get("response"), want, header))
 
@@ -284,7 +291,7 @@ def _run(sim):
         order = sim.draw_perm(ORDER) if sim.draw_bool(0.5, "permute") else list(ORDER)
         quote_all = sim.draw_bool(0.3, "quote_all")
         sep = sim.draw_choice([b", ", b",", b",\r\n  "], "sep")
-        tame = [("honest", 6), ("wrong-password", 2), ("other-address", 2), ("expired-check", 0), ("nonce-post", 1), ("nonce-pre", 1),
+        tame = [("honest", 6), ("md5-sess", 2 if (algo == b"md5" and not legacy) else 0), ("wrong-password", 2), ("other-address", 2), ("expired-check", 0), ("nonce-post", 1), ("nonce-pre", 1),
                 ("opaque-digest", 1), ("opaque-key", 1), ("opaque-forged-time", 1), ("opaque-forged-addr", 1), ("other-factory", 1 if (nfac > 1 and distinct_keys) else 0),
                 ("opaque-shape", 1), ("drop-tame", 1), ("value-tame", 2)]
         wild = [("opaque-truncate", 2), ("opaque-garbage", 1), ("drop-any", 2), ("value-wild", 2), ("raw-wild", 2), ("algorithm", 1), ("qop", 1), ("truncate-header", 1)]
@@ -312,6 +319,15 @@ def _run(sim):
         if kind == "honest":
             if sim.draw_bool(0.2, "upper_algo"):
                 fields["algorithm"] = fields["algorithm"].upper()   # the algorithm token is case-insensitive
+        elif kind == "md5-sess":
+            # a session-variant response (accepted by the implementation for an md5 challenge): acceptance is not required,
+            # but if accepted it must be for the password the client used, whatever else the object was asked before
+            if sim.draw_bool(0.3, "sess_wrong"):
+                used_pw = WRONG
+            fields["algorithm"] = sim.draw_choice([b"md5-sess", b"MD5-sess"], "sesscase")
+            fields["response"] = client_response(b"md5", user, realm, used_pw, method, uri, c.nonce, nc, cnonce, b"auth", sess=True)
+            expect = "free" if fresh else "invalid"
+            sim.probe("md5_sess_response")
         elif kind == "wrong-password":
             used_pw = WRONG if sim.draw_bool(0.5, "which_wrong") else right_pw + b"x"
             fields = build(used_pw, c.nonce, c.opaque)
